@@ -26,7 +26,7 @@ META = {
                  'builders (jump emitter and sentinel test regenerated from the Go source) + differential run of generated histories '
                  'against the real goom with a full .text comparison after every step',
     'level': 'proof',
-    'level_text': 'Full proof on the model: for every finite history of apply / re-apply / Return / When / Origin / Cancel / Reset over any '
+    'level_text': 'Full proof on the model: for every finite history of apply / re-apply / Return / When / Origin / Cancel / Reset / kept-handle operations over any '
                   'builders and targets, saved origin bytes are pristine, the image differs from pristine only by whole 13-byte entry jumps of '
                   'registered and applied patches (and placeholder bodies), Reset/Cancel restore exact bytes and original behaviour for every '
                   'map-iteration order, a second Reset changes nothing, re-mocking after Reset works, and operations on f never change g != f.',
@@ -35,14 +35,16 @@ META = {
                   'the emitter. Measured, not modelled: function sizes, first bytes, funcval addresses and the outcome of the placeholder '
                   'relocation (C03) enter the model as parameters that the theorems quantify over. Not reachable through Go-compiled targets and '
                   'therefore proved but not exercised: the too-small and already-patched exits of replaceFunc. Out of scope: internal-only '
-                  'Guard.Restore/UnpatchAll, concurrency (C11). Use of a mocker handle after its own Cancel/Reset is not in the model; it is '
-                  'checked on the implementation only (oracle lane c02.stale, defect F16).',
+                  'Guard.Restore/UnpatchAll, concurrency (C11). Kept mocker handles (keep / Apply / Return / Cancel through the handle, every via incl. by-name and method values) '
+                  'are modelled ops (plus the older oracle-only lane c02.stale, defect F16); the generators never look a function up afresh while its '
+                  'kept handle is cancelled: that orphans the handle (the builder replaces its cache entry, Reset cannot reach the old mocker) — '
+                  'recorded in Findings/C02Orphan.lean.',
 }
 
 GEN = ['JmpAmd64']
 NT, NP = 10, 4
 METHODS = {7, 8, 9}
-VIAS = {0: 'fe', 1: 'fe', 2: 'fe', 3: 'fe', 4: 'fe', 5: 'f', 6: 'fe', 7: 'fmeu', 8: 'fmeu', 9: 'feu'}
+VIAS = {0: 'fe', 1: 'fe', 2: 'fe', 3: 'fe', 4: 'fe', 5: 'f', 6: 'fe', 7: 'fmeuv', 8: 'fmeuv', 9: 'feuv'}
 
 CORPUS = [  # hand-written scenarios that always run first (1 builder unless the first token says otherwise)
     '1 | a 0 f 0 1 ; x 0 ; x 0 ; a 0 f 0 2 ; x 0',
@@ -60,15 +62,28 @@ CORPUS = [  # hand-written scenarios that always run first (1 builder unless the
     '2 | r 0 f 2 44 ; a 0 f 2 2 ; r 0 f 2 4',           # Apply discards the When: the later Return installs a new stub
     '1 | r 0 m 8 1 ; a 0 m 8 2 ; w 0 m 8 3 ; a 0 e 4 1 ; r 0 e 4 2 ; a 0 u 9 0 ; r 0 u 9 5 ; x 0',
     '1 | r 0 f 0 1 0 ; a 0 f 0 1 ; r 0 f 0 2',          # failing Apply (sticky Origin) does not reach `m.when = nil`
+    # kept handles (k = keep, A/R/C = through the handle): cancel, re-apply through the SAME handle, fresh lookup, Reset, second Reset
+    '1 | k 0 e 0 ; A 0 e 0 1 ; C 0 e 0 ; A 0 e 0 2 ; c 0 e 0 ; x 0 ; x 0',
+    '1 | k 0 e 4 ; A 0 e 4 1 ; x 0 ; A 0 e 4 2 ; k 0 e 4 ; x 0 ; x 0',
+    '1 | k 0 u 9 ; A 0 u 9 1 ; C 0 u 9 ; A 0 u 9 2 ; c 0 u 9 ; x 0 ; x 0',
+    '1 | k 0 v 8 ; A 0 v 8 1 ; C 0 v 8 ; R 0 v 8 2 ; c 0 v 8 ; x 0',
+    '1 | k 0 f 3 ; R 0 f 3 1 ; C 0 f 3 ; R 0 f 3 2 ; a 0 f 3 0 ; x 0 ; x 0',
+    '1 | k 0 m 7 ; A 0 m 7 1 ; x 0 ; R 0 m 7 2 ; r 0 m 7 3 ; x 0',
+    '2 | k 0 e 1 ; k 1 f 1 ; A 0 e 1 0 ; A 1 f 1 1 ; C 0 e 1 ; A 0 e 1 2 ; a 0 e 1 3 ; x 1 ; x 0',
 ]
-MALFORMED = ['1 | a 0 q 0 1', '1 | a 0 m 0 1', '1 | a 0 f 12 1', '1 | a 3 f 0 1', '1 | z 0', '1 | a 0 f 0 9', '1 | a 0 f 0 1 3', '1 | a 0 f 0', '1 | w 0 u 9 1', '1 | w 0 f 7 1', '1 | w 0 f 5 1']
+MALFORMED = ['1 | a 0 q 0 1', '1 | a 0 m 0 1', '1 | a 0 f 12 1', '1 | a 3 f 0 1', '1 | z 0', '1 | a 0 f 0 9', '1 | a 0 f 0 1 3', '1 | a 0 f 0', '1 | w 0 u 9 1', '1 | w 0 f 7 1', '1 | w 0 f 5 1', '1 | A 0 f 0 1', '1 | k 0 f 0 ; C 0 e 0', '1 | k 0 v 0', '1 | k 0 f 0 1']
 
 
 def gen_history(rng, maxlen=25):
+    """Random history.  In about a third of them the user also keeps mocker handles (`k`) and works through them (`A`/`R`/`C`).
+    Generator scope: while a kept handle is cancelled, the same (builder, via, target) is not looked up afresh — that would
+    orphan the handle (the builder replaces its cache entry), and a mocker the builder no longer knows is outside C02."""
     nb = 1 + rng.below(3)
     n = 1 + rng.below(maxlen)
     pool = sorted({rng.below(NT) for _ in range(2 + rng.below(5))})
     steps = []
+    use_handles = rng.chance(1, 3)
+    hstate = {}          # (b, via, t) -> 'live' | 'cancelled'
     for _ in range(n):
         r = rng.below(100)
         b = rng.below(nb)
@@ -76,9 +91,35 @@ def gen_history(rng, maxlen=25):
             steps.append(f'x {b}')
             if rng.chance(1, 4):
                 steps.append(f'x {b}')          # second Reset
+            for k_ in hstate:
+                if k_[0] == b:
+                    hstate[k_] = 'cancelled'
             continue
         t = rng.choice(pool)
         via = rng.choice(VIAS[t])
+        if use_handles and hstate and rng.chance(3, 5):
+            b, via, t = rng.choice(sorted(hstate))     # come back to a kept handle
+        key = (b, via, t)
+        if use_handles and (key in hstate or rng.chance(1, 3)):
+            if key not in hstate or rng.chance(1, 8):
+                steps.append(f'k {b} {via} {t}')
+                hstate[key] = 'live'
+                continue
+            if hstate[key] == 'cancelled' or rng.chance(1, 2):
+                q = rng.below(10)
+                if q < 5:
+                    steps.append(f'A {b} {via} {t} {rng.below(4)}')
+                    hstate[key] = 'live'
+                elif q < 8:
+                    steps.append(f'R {b} {via} {t} {rng.below(50)}')
+                    hstate[key] = 'live'
+                else:
+                    steps.append(f'C {b} {via} {t}')
+                    hstate[key] = 'cancelled'
+                continue
+            # handle is live: a fresh lookup returns the same mocker
+            if r < 30:
+                hstate[key] = 'cancelled'
         if r < 30:
             steps.append(f'c {b} {via} {t}')
             continue
@@ -203,6 +244,10 @@ def oracle(hist, obs, fixok):
         res, d, b, n = m.groups()
         beh = b.split(',')
         restored = set()
+        if st[0] == 'k':
+            st = ['nop']                         # a bare lookup mocks nothing
+        elif st[0] in 'ARC':
+            st = [st[0].lower()] + st[1:]        # through a kept handle: same mocker as the (builder, via, target) lookup
         if st[0] == 'x':
             restored = {t for (bb, v, t) in live_ok if bb == st[1]}
             live = {e for e in live if e[0] != st[1]}
@@ -215,6 +260,8 @@ def oracle(hist, obs, fixok):
             live_ok.discard((st[1], st[2], int(st[3])))
             sticky.pop((st[1], st[2], int(st[3])), None)
             has_when.discard((st[1], st[2], int(st[3])))
+        elif st[0] == 'nop':
+            pass
         else:
             t = int(st[3])
             live.add((st[1], st[2], t))
@@ -354,6 +401,9 @@ def stats(hists, impl):
                 lastreset[st[1]] = i
                 for key in [k for k in applied if k[0] == st[1]]:
                     applied[key] = 'reset'
+            elif st[0] in 'ARCk':
+                vias[st[2]] += 1
+                feats['steps through a kept handle' if st[0] != 'k' else 'handles kept'] += 1
             elif st[0] in 'arw':
                 vias[st[2]] += 1
                 key = (st[1], st[3])
